@@ -30,6 +30,7 @@ THE COMPOSITION — proved here (helpers: Proofs/BocRoundTrip.lean):
     minimal size width, minimal offset width from the doubled length with cache bits, no stored hashes, one root) and the
     listing `cells` of the order (`toBoc_eq_encodeWith`), that listing is `Valid` and denotes the unfoldings of the ordered cells
     (`valid_order`, `denote_order`), so C05's `c05_accepts` applies.
+  * `c03_roundtrip_total` — with existence of `p` and termination of `Cell.order` for the driver's fuel.
   * `c03_entry_cell`, `c03_entry_slice`, `c03_entry_builder` — the three `one_from_boc` entry points (Model/BocEntry.lean) on
     the three input forms: `Cell.one_from_boc` returns that root; `Slice.one_from_boc` returns the slice holding all data
     bits and all references of the root; `Builder.one_from_boc` returns the builder holding exactly the root's bits and
@@ -161,6 +162,25 @@ theorem c03_roundtrip (H : Bytes → Bytes) (t : Cell) (wf : TreeWF H t) (ty : T
   · intro inp hi
     simp only [List.mem_cons, List.not_mem_nil, or_false] at hi
     simp only [BocParse.fromBocInput, forms_bocInit rest hwf inp hi, Option.bind_some, hfb]
+
+/-- the same with existence and termination: a spec-valid tree can always be built, `Cell.order` returns with the fuel the
+driver passes (`6·distinct cells + 2`), and then — within the format's size limits — every option set round-trips. -/
+theorem c03_roundtrip_total (H : Bytes → Bytes) (t : Cell) (wf : TreeWF H t) (ty : Typed t) :
+    ∃ p, Cell.build H t = some p ∧ ∀ (_ : NoCollision p) (fuel : Nat)
+      (_ : 6 * ((subcells p).map PCell.key).eraseDups.length + 2 ≤ fuel),
+      ∃ ord, p.order fuel = some ord ∧
+        ∀ (o : Opts), o.valid = true → ord.length < 2 ^ 32 →
+          (payloadOf (sizeW (orderRecs ord)) (orderRecs ord)).length * 2 < 2 ^ 64 →
+          ∃ bs, p.toBoc fuel o = some bs ∧ BocParse.fromBoc H bs = some [(t, p.info)] := by
+  obtain ⟨p, hb⟩ := tree_builds H t wf
+  refine ⟨p, hb, ?_⟩
+  intro nc fuel hf
+  have okp := build_ok H t p (shape_of H t wf ty) hb
+  obtain ⟨ord, ho, _⟩ := order_fuel_valid p fuel (fun c hc => (okp c hc).refs_le) nc hf
+  refine ⟨ord, ho, ?_⟩
+  intro o hv hn hP
+  obtain ⟨bs, h1, h2, _⟩ := c03_roundtrip H t wf ty p hb nc fuel ord ho o hv hn hP
+  exact ⟨bs, h1, h2⟩
 
 /-- `Cell.one_from_boc` on the three input forms of `to_boc`'s output returns the root: same tree, identical cached info. -/
 theorem c03_entry_cell (H : Bytes → Bytes) (t : Cell) (wf : TreeWF H t) (ty : Typed t) (p : PCell)
